@@ -1,6 +1,7 @@
 import ObiVerif.Model.Pcr
 import ObiVerif.Model.PcrAnnot
 import ObiVerif.Model.PcrSeqBuf
+import ObiVerif.Model.PcrGlue
 import ObiVerif.Driver.Util
 /-! line protocol for C11
 
@@ -27,6 +28,14 @@ conc   [race] <g> <r> <fwd> <rev> <ef> <er> <min> <max> <ext> <full> <circ> <n> 
 concli [race] <r> <fwd> <rev> <e> <min> <max> <delta> <full> <circ> <frag> <n> n × <tpl>
        -> the results of the `cli` cases of the n templates, joined by " ; " (each template alone through CLIPCR; the harness
           then sends the n templates through one CLIPCR, r rounds)
+```
+
+```
+glue <bs> <nw> <argv> <tpl>[,<tpl>...]     (argv: the words of the command line, each in hex, "," separated)
+       -> parse-error | fatal | panic | v=<forward>/<reverse>/<e>/<l>/<L>/<D>/<only-complete>/<circular>/<fragmented> (the option
+          variables after the parser, `readArgv` + `parse`) then " " and per template ("|") the sorted records of a `cli` line
+          (`cliCommand`: every template, template number k with the annotations `tplAnnot k`); bs (batch size) and nw (workers)
+          do not change the answer
 ```
 
 ```
@@ -121,6 +130,50 @@ def runCli (fw rv e mn mx delta full circ frag tpl : String) : String :=
           if s.isEmpty then "-" else ",".intercalate s
   | _, _, _, _, _, _, _, _, _, _ => "bad-op"
 
+def b01 (b : Bool) : String := if b then "1" else "0"
+
+def showVars (v : Vars) : String :=
+  s!"v={hex v.forward}/{hex v.reverse}/{v.mismatch}/{v.minLength}/{v.maxLength}/{v.delta}/{b01 v.onlyFull}/{b01 v.circular}/{b01 v.fragmented}"
+
+/-- `glue`: the command line through `readArgv` / `parse`, then `cliCommand` on all the templates -/
+def runGlue (bs nw argv tpls : String) : String :=
+  match bs.toNat?, nw.toNat?, (argv.splitOn ",").mapM unhex, splitTpls tpls with
+  | some bs, some nw, some ws, some tpls =>
+    if bs < 1 || bs > 1000 || nw < 1 || nw > 64 || ws.any (·.isEmpty) then "bad-op"
+    else
+      match readArgv (ws.map fun w => String.ofList (w.map fun b => Char.ofNat b.toNat)) with
+      | .unsupported => "bad-op"
+      | .refused => "parse-error"
+      | .ok args =>
+        match parse args with
+        | none => "parse-error"
+        | some v =>
+          let p := cliFragParams v.maxLength v.forward.length v.reverse.length v.delta
+          if v.forward.length ≥ Gen.apatMaxPatLen || v.reverse.length ≥ Gen.apatMaxPatLen || v.mismatch < 0 || v.mismatch > 63 then "bad-op"
+          else if v.fragmented && !v.circular && (v.maxLength < 1 || p.2.1 - p.2.2 < 1) then "bad-op"
+          else
+            match cliCommand v (tpls.map fun t => t.map lowerByte) with
+            | none => "fatal"
+            | some per =>
+              let shown := (List.range per.length).zip (per.zip tpls) |>.map fun (kr : Nat × (Option (Except Bad (List ((Nat × Nat) × List Amplicon))) × Bytes)) =>
+                match kr.2.1 with
+                | none => "bad-op"
+                | some (.error b) => showBad b
+                | some (.ok cuts) =>
+                  let whole := (cliPieces v.maxLength v.forward.length v.reverse.length v.delta v.circular v.fragmented kr.2.2.length) == some none
+                  let all := cuts.flatMap fun (cl : (Nat × Nat) × List Amplicon) =>
+                    let name := if whole then "whole" else s!"{cl.1.1 + 1}..{cl.1.2}"
+                    cl.2.map fun x =>
+                      let m := annotate v.forward v.reverse (tplAnnot kr.1) x
+                      s!"{showDir (m.get (.pcr .direction))}/{name}/{x.idFrom + (cl.1.1 : Int)}/{hex x.seq}/{showAnnot m}"
+                  let s := sortStr all
+                  if s.isEmpty then "-" else ",".intercalate s
+              if shown.contains "bad-op" then "bad-op"
+              else if shown.contains "panic" then "panic"
+              else if shown.contains "fatal" then "fatal"
+              else s!"{showVars v} {"|".intercalate shown}"
+  | _, _, _, _ => "bad-op"
+
 /-- one `pcr` case: `PCRSlice` on a batch of templates -/
 def runPcr (fw rv ef er mn mx ext full circ tpls : String) : String :=
     match unhex fw, unhex rv, ef.toNat?, er.toNat?, mn.toInt?, mx.toInt?, ext.toInt?, bool? full, bool? circ, splitTpls tpls with
@@ -186,6 +239,7 @@ def run (line : String) : String :=
       "|".intercalate ((recycleChain circ none (tpls.map fun t => t.map lowerByte)).map fun s =>
         s!"{s.seqlen}/{s.circular}/{s.data.length}/{hex (s.data.map fun c => c.toUInt8)}")
     | _, _ => "bad-op"
+  | ["glue", bs, nw, argv, tpls] => runGlue bs nw argv tpls
   | ["cli", fw, rv, e, mn, mx, delta, full, tpl] => runCli fw rv e mn mx delta full "0" "1" tpl
   | ["cli", fw, rv, e, mn, mx, delta, full, circ, frag, tpl] => runCli fw rv e mn mx delta full circ frag tpl
   | _ => "bad-op"
